@@ -109,6 +109,14 @@ class OpBox(object):
             os.symlink(b'../a', path + b'/sub/l')
         elif kind == 'link':
             os.symlink(b'/nonexistent/' + p.encode(), path)
+        # owned by a user and a group that have no passwd / group entry (an extracted archive, a foreign disk): nothing in
+        # trash-put may depend on their names
+        if os.geteuid() == 0 and len(self.sources) % 2 == 0:
+            try:
+                os.lchown(path, 61234, 61235)
+                os.lchown(d, 61234, 61235)
+            except OSError:
+                pass
         self.sources[p] = path
         self.digests[p] = world.digest_of_sub(world.snapshot_sub(path))
         return path
